@@ -8,7 +8,7 @@ from typing import TYPE_CHECKING
 
 # Local Imports
 from ..common.labels import FoVLabel
-from ..physics.constants import DEG2RAD
+from ..physics.constants import DEG2RAD, TWOPI
 from ..physics.maths import subtendedAngle
 from ..physics.measurements import getAzimuth, getElevation
 
@@ -131,7 +131,9 @@ class RectangularFoV(FieldOfView):
         background_azimuth = getAzimuth(background_sez)
         background_elevation = getElevation(background_sez)
 
+        # Azimuth difference taken the short way around, so the north (0/360 deg) seam is handled
         azimuth_angle = abs(pointing_azimuth - background_azimuth)
+        azimuth_angle = min(azimuth_angle, TWOPI - azimuth_angle)
         elevation_angle = abs(pointing_elevation - background_elevation)
         return (
             azimuth_angle <= self.azimuth_angle / 2 and elevation_angle <= self.elevation_angle / 2
